@@ -78,6 +78,12 @@ impl SvgElement {
 //@ ensures
 //@ - r == foreign_pos(self.name@, self.attrs@)     @@C10.pending.foreign_spec
 //@end
+//@item src/element.rs :: impl SvgElement :: fn has_pending_offset
+//@ strlit "text" "tspan" "feOffset" "dx" "dy"
+//@ replace[R-matches] <<<!matches!(self.name.as_str(), "text" | "tspan" | "feOffset")>>> => <<<!(self.name.as_str() == "text" || self.name.as_str() == "tspan" || self.name.as_str() == "feOffset")>>>
+//@ ensures
+//@ - r == offset_pending(self.name@, self.attrs@)     @@C10.pending.offset_spec
+//@end
 //@item src/element.rs :: impl SvgElement :: fn has_pending_geometry
 //@ ensures
 //@ - r == unresolved(self.name@, self.attrs@)     @@C10.pending.spec
